@@ -5,9 +5,15 @@
 package main
 
 import (
+	"context"
 	"fmt"
 	"sort"
 	"strings"
+
+	"github.com/pingcap/kvproto/pkg/pdpb"
+	"github.com/tikv/pd/pkg/verifshim/vclock"
+	"github.com/tikv/pd/server/config"
+	"verif/checks/srvh"
 
 	"github.com/tikv/pd/pkg/typeutil"
 	"github.com/tikv/pd/pkg/verifshim/sched"
@@ -283,10 +289,109 @@ func scenarios() []*explore.Scenario {
 	return l
 }
 
+// handlers: the id-consuming gRPC handlers of a real bootstrapped Server (AllocID, AskSplit,
+// AskBatchSplit) run concurrently; every id handed out by any of them must be distinct and
+// not above the stored window.
+func handlers(name string, pre int, tiers string) *explore.Scenario {
+	return &explore.Scenario{Name: name, MaxPre: pre, Tiers: tiers,
+		Opts: sched.Options{Kinds: uint32(1<<sched.KLock | 1<<sched.KEtcd | 1<<sched.KUser | 1<<sched.KWait | 1<<sched.KStart | 1<<sched.KYield)},
+		Setup: func() *explore.Instance {
+			vclock.Enable(vclock.Epoch)
+			st := fakeetcd.New()
+			srvh.SeedClusterID(st)
+			s, err := srvh.New(st, 1, func(c *config.Config) { c.LeaderLease = 1000000 })
+			if err != nil {
+				panic(err)
+			}
+			if err := s.VerifBecomeLeader(); err != nil {
+				panic(err)
+			}
+			boot := s.BootstrapReq(1, 2, 3, "127.0.0.1:1")
+			boot.Store.Version = "4.0.0"
+			if _, err := s.Bootstrap(context.Background(), boot); err != nil {
+				panic(err)
+			}
+			if _, err := s.PutStore(context.Background(), &pdpb.PutStoreRequest{Header: s.Header(), Store: boot.Store}); err != nil {
+				panic(err)
+			}
+			type got struct {
+				who    string
+				id     uint64
+				stored uint64
+			}
+			var ids []got
+			key := srvh.Root + "/alloc_id"
+			storedNow := func() uint64 {
+				v, ok := st.Get(key)
+				if !ok {
+					return 0
+				}
+				u, _ := typeutil.BytesToUint64([]byte(v))
+				return u
+			}
+			rec := func(who string, l ...uint64) {
+				sn := storedNow()
+				for _, id := range l {
+					ids = append(ids, got{who, id, sn})
+				}
+			}
+			region := boot.Region
+			return &explore.Instance{Names: []string{"alloc", "batch-split", "split", "drain"}, Threads: []func(){
+				func() {
+					for i := 0; i < 2; i++ {
+						if r, err := s.AllocID(context.Background(), &pdpb.AllocIDRequest{Header: s.Header()}); err == nil {
+							rec("AllocID", r.GetId())
+						}
+					}
+				},
+				func() {
+					r, err := s.AskBatchSplit(context.Background(), &pdpb.AskBatchSplitRequest{Header: s.Header(), Region: region, SplitCount: 2})
+					if err == nil && r.GetHeader().GetError() == nil {
+						for _, x := range r.GetIds() {
+							rec("AskBatchSplit", x.NewRegionId)
+							rec("AskBatchSplit", x.NewPeerIds...)
+						}
+					}
+				},
+				func() {
+					r, err := s.AskSplit(context.Background(), &pdpb.AskSplitRequest{Header: s.Header(), Region: region})
+					if err == nil && r.GetHeader().GetError() == nil {
+						rec("AskSplit", r.NewRegionId)
+						rec("AskSplit", r.NewPeerIds...)
+					}
+				},
+				func() {
+					// use up the rest of the window so that a rebase happens while the others run
+					sched.Atomic(func() {
+						for i := 0; i < 990; i++ {
+							if r, err := s.AllocID(context.Background(), &pdpb.AllocIDRequest{Header: s.Header()}); err == nil {
+								rec("drain", r.GetId())
+							}
+						}
+					})
+				},
+			}, Check: func(r *sched.Run) (string, *explore.Violation) {
+				defer s.Close()
+				seen := map[uint64]string{}
+				for _, g := range ids {
+					if o, dup := seen[g.id]; dup {
+						return "", &explore.Violation{Key: "duplicate-id", Msg: fmt.Sprintf("id %d handed out twice: by %s and by %s", g.id, o, g.who)}
+					}
+					seen[g.id] = g.who
+					if g.id > g.stored {
+						return "", &explore.Violation{Key: "id-above-stored-window", Msg: fmt.Sprintf("%s returned id %d while the stored window bound is %d", g.who, g.id, g.stored)}
+					}
+				}
+				return fmt.Sprintf("ids=%d stored=%d", len(ids), storedNow()), nil
+			}}
+		}}
+}
+
 func main() {
+	defer srvh.Cleanup()
 	explore.Main(&explore.Config{
 		Property:  "C04",
-		Scenarios: scenarios(),
+		Scenarios: append(scenarios(), handlers("handlers", 2, "quick"), handlers("handlers@3", 3, "thorough")),
 		Rule:      "every schedule (preemption-bounded) and fault answer (deviation-bounded) of the thread scripts; an outcome is the multiset of (member,id) returned plus the final stored window",
 		Assumptions: []string{
 			"fake etcd is conformance-checked against embedded etcd (engine/fakeetcd/conformance)",
